@@ -77,11 +77,65 @@ fn judge(e: &Exec) -> Vec<(String, String)> {
         .collect()
 }
 
+
+/// "leaves nonces untouched" for EVERY counter value, not just the small ones a short session reaches: both
+/// counters of both parties are placed (set_receiving_nonce / the sending-nonce hook) on values across the range -
+/// carry boundaries, the last usable nonce, the reserved one - and every rekey entry point is called; the nonce
+/// getters must not move (judged by the executor's two-counter model), and at usable values a message still goes
+/// through under the new key.
+fn nonce_sweep(ctx: &Ctx) {
+    let values = [0u64, 1, 255, 256, (1 << 32) - 1, 1 << 32, 1 << 63, u64::MAX - 2, u64::MAX - 1, u64::MAX];
+    let rekeys = |w: Side, r: Side| -> Vec<Vec<Op>> {
+        vec![
+            vec![Op::RekeyOut { side: w }, Op::RekeyIn { side: r }],
+            vec![Op::RekeyManual { side: w, i: Some(1), r: Some(2) }, Op::RekeyManual { side: r, i: Some(1), r: Some(2) }],
+            vec![Op::RekeyInitManual { side: w, k: 3 }, Op::RekeyInitManual { side: r, k: 3 }],
+            vec![Op::RekeyRespManual { side: w, k: 4 }, Op::RekeyRespManual { side: r, k: 4 }],
+            vec![Op::RekeyIn { side: w }, Op::RekeyOut { side: r }],
+        ]
+    };
+    let mut jobs = vec![];
+    for (c, b) in cipher_backends() {
+        for pat in ["NN", "N"] {
+            for v in values {
+                jobs.push((c, b, pat, v));
+            }
+        }
+    }
+    jobs.par_iter().for_each(|(c, b, pat, v)| {
+        let p = proto(pat, &[], DhAlg::X25519, *c, HashAlg::Sha256);
+        let mut cfg = Config::honest(&p, 0);
+        cfg.backend = [*b, *b];
+        cfg.record = true;
+        cfg.crypto_oracle = false;
+        let (w, r) = (Side::I, Side::R);
+        let mut ops = sess::handshake_ops(&p, &[0, 0, 0, 0]);
+        ops.extend(sess::convert_ops(Mode::TT));
+        for rk in rekeys(w, r) {
+            ops.push(Op::SetSendNonce { side: w, n: *v });
+            ops.push(Op::SetRecvNonce { side: r, n: *v });
+            ops.extend(rk);
+            ops.push(Op::TWrite { side: w, plen: 4, cap: Cap::Roomy });
+            ops.push(Op::TRead { side: r, msg: Msg::Last(w), cap: Cap::Roomy });
+        }
+        let e = sess::run(&cfg, &ops);
+        ctx.add(&ctx.evaluations, 1);
+        ctx.add(&ctx.nontrivial, 1);
+        ctx.add(&ctx.transitions, e.steps.len() as u64);
+        ctx.add(&ctx.traces, 1);
+        if let Some((sig, d)) = judge(&e).into_iter().next() {
+            let step = e.mism.iter().map(|m| m.step).min().unwrap_or(ops.len() - 1).min(ops.len() - 1);
+            ctx.violation(format!("{sig} (counters placed on {v:#x})"), d, sess::case_json(&cfg, &ops[..=step]));
+        }
+    });
+    ctx.count("nonce_sweep_sessions", jobs.len() as u64);
+}
+
 pub fn run(tier: Tier) -> i32 {
     let ctx = Ctx::new("C15", tier, "model_checking");
     ctx.bind_model(); // the reference AEAD (REKEY) is checked against its KATs first
     let (depth, devs) = if ctx.quick() { (5, 1) } else { (6, 2) };
-    ctx.set_rule(format!("explicit-state BFS over sequences of {{write, read(latest peer message), rekey_outgoing, rekey_incoming, rekey_manually, rekey_initiator_manually, rekey_responder_manually}} on both endpoints, stateful and stateless, depth {depth}; each transition on real snow objects vs the key-term model, message bytes vs the reference AEAD"));
+    ctx.set_rule(format!("explicit-state BFS over sequences of {{write, read(latest peer message), rekey_outgoing, rekey_incoming, rekey_manually, rekey_initiator_manually, rekey_responder_manually}} on both endpoints, stateful and stateless, depth {depth}; each transition on real snow objects vs the key-term model, message bytes vs the reference AEAD; plus, for 10 counter values across the range (carry boundaries, 2^64-2, 2^64-1), every rekey entry point called with both counters of both parties placed there: the nonce getters must not move"));
     let mut specs = vec![];
     for (c, b) in cipher_backends() {
         for pat in ["NN", "N"] {
@@ -99,6 +153,7 @@ pub fn run(tier: Tier) -> i32 {
         let r = seqmc::explore(s.clone());
         absorb(&ctx, s, &r, label);
     });
+    nonce_sweep(&ctx);
     let (s0, _) = &specs[0];
     sample_ops(&ctx, &s0.cfg, &{
         let mut o = s0.prefix.clone();
